@@ -40,6 +40,9 @@ func vfCallOps() []vfCallOp {
 	ops = append(ops,
 		vfCallOp{Name: "b1:accept(wrong id)", Kind: "event", Sess: "b1", Event: "accept", Seq: "wrong"},
 		vfCallOp{Name: "a1:hang-up(wrong id)", Kind: "event", Sess: "a1", Event: "hang-up", Seq: "wrong"},
+		vfCallOp{Name: "b1:accept(id of an ordinary earlier message)", Kind: "event", Sess: "b1", Event: "accept", Seq: "stale"},
+		vfCallOp{Name: "a1:hang-up(id of an ordinary earlier message)", Kind: "event", Sess: "a1", Event: "hang-up", Seq: "stale"},
+		vfCallOp{Name: "b1:hang-up(id of an ordinary earlier message)", Kind: "event", Sess: "b1", Event: "hang-up", Seq: "stale"},
 		vfCallOp{Name: "b1:bogus event", Kind: "event", Sess: "b1", Event: "bogus", Seq: "cur"},
 		vfCallOp{Name: "c1:hang-up (outsider)", Kind: "event", Sess: "c1", Event: "hang-up", Seq: "cur"},
 		vfCallOp{Name: "a1:leave", Kind: "leave", Sess: "a1"}, vfCallOp{Name: "a1:sub", Kind: "sub", Sess: "a1"},
@@ -93,6 +96,9 @@ func vfCallSetup(callsOn bool) *vfCallWorld {
 			vsched.Fail("harness", fmt.Sprintf("p2p sub %s: %d", s, code))
 		}
 	}
+	if code, _ := x.cl["a1"].Req(`{"pub":{"id":"$ID","topic":"%s","content":"hello"}}`, x.addr("a1")); code != 202 {
+		vsched.Fail("harness", fmt.Sprintf("first message: %d", code))
+	}
 	_, fr := x.cl["a1"].Req(`{"sub":{"id":"$ID","topic":"new1"}}`)
 	for _, f := range fr {
 		if f.Msg.Ctrl != nil && strings.HasPrefix(f.Msg.Ctrl.Topic, "grp") {
@@ -144,6 +150,9 @@ func vfCallExec(callsOn bool) func(hist []int, last bool) vfXResult {
 				}
 				if op.Seq == "wrong" {
 					seq = 99
+				}
+				if op.Seq == "stale" {
+					seq = 1 // the message published during the setup: exists, is not a call
 				}
 				x.cl[op.Sess].Do(fmt.Sprintf(`{"note":{"topic":"%s","what":"call","seq":%d,"event":"%s","payload":{"sdp":"x"}}}`, x.addr(op.Sess), seq, op.Event))
 			case "leave":
